@@ -36,6 +36,15 @@ HasIndexing(P) ==
      \/ \E x \in 1..Len(P.ret.refs) : Len(P.ret.refs[x].path) > 0
      \/ \E q \in 1..Len(P.subs) : HasIndexing(P.subs[q])
 
+\* some value is used through a LIST key or a TUPLE key (containers that tell the two apart)
+RECURSIVE HasSeqKey(_)
+HasSeqKey(P) ==
+  LET Refs(st) == {st.args[x] : x \in 1..Len(st.args)} \cup {st.kw[x].ref : x \in 1..Len(st.kw)} \cup {st.active}
+      SeqKey(r) == \E y \in 1..Len(r.path) : r.path[y].k \in {"li", "ti"}
+  IN \/ \E j \in 1..Len(P.sites) : \E r \in Refs(P.sites[j]) : SeqKey(r)
+     \/ \E x \in 1..Len(P.ret.refs) : SeqKey(P.ret.refs[x])
+     \/ \E q \in 1..Len(P.subs) : HasSeqKey(P.subs[q])
+
 RECURSIVE HasDebug(_)
 HasDebug(P) == \/ \E j \in 1..Len(P.sites) : P.sites[j].debug
                \/ \E q \in 1..Len(P.subs) : HasDebug(P.subs[q])
@@ -124,15 +133,17 @@ Check ==
      /\ Count(10, ~exp.err /\ W.conc = 3)
      /\ Count(12, ~exp.err /\ HasIndexing(P))
      /\ Count(13, ~exp.err /\ HasDebug(P))
+     /\ Count(14, ~exp.err /\ HasSeqKey(P))
      /\ Count(11, ~exp.err /\ \E q \in exp.exec : Len(q) > 1 /\ LET RECURSIVE IsSetupPath(_, _)
                                                                     IsSetupPath(Q, pth) == IF Len(pth) = 1 THEN Q.sites[pth[1]].setup
                                                                                            ELSE IsSetupPath(Q.subs[Q.sites[pth[1]].sub], Tail(pth))
                                                                 IN IsSetupPath(P, q))
      /\ (b = {} \/ PrintT("MISMATCH " \o ToJson([o |-> o, c |-> b, expval |-> exp.val, expexec |-> exp.exec])))
 
-ASSUME \A reg \in 1..13 : TLCSet(reg, 0)
+ASSUME \A reg \in 1..14 : TLCSet(reg, 0)
 Counts == PrintT("COUNTS " \o ToJson([rows |-> TLCGet(1), ineq |-> TLCGet(2), nested |-> TLCGet(3),
                                        flagged |-> TLCGet(4), async |-> TLCGet(5), argerr |-> TLCGet(6),
                                        threads |-> TLCGet(7), gathered |-> TLCGet(8), loopserved |-> TLCGet(9),
-                                       inturn |-> TLCGet(10), nestedsetup |-> TLCGet(11), indexed |-> TLCGet(12), withdebug |-> TLCGet(13)]))
+                                       inturn |-> TLCGet(10), nestedsetup |-> TLCGet(11), indexed |-> TLCGet(12), withdebug |-> TLCGet(13),
+                                       seqkeys |-> TLCGet(14)]))
 =============================================================================
